@@ -683,11 +683,11 @@ Proof.
   destruct (mode_is_dir (st_mode s)) eqn:Ed; cbn [orb negb andb].
   - intros H. inversion H; subst. split; [auto|discriminate].
   - destruct (mode_is_symlink (st_mode s)) eqn:Es; cbn [orb negb andb].
-    + intros H. inversion H; subst. split; [auto|]. rewrite andb_false_r. discriminate.
-    + destruct (is_nil (st_linkname s)) eqn:En; cbn [negb].
+    + intros H. inversion H; subst. split; [auto|]. discriminate.
+    + destruct (is_nil (st_linkname s)) eqn:En; cbn [negb andb].
       * intros H. inversion H; subst. split.
         -- intros q [E|Hq]; auto. right. split; auto. rewrite orb_true_r. reflexivity.
-        -- rewrite andb_false_r. discriminate.
+        -- discriminate.
       * destruct (mem_bytes (st_linkname s) seen) eqn:Em; intros H; inversion H; subst.
         split; [auto|]. intros _. apply mem_bytes_In. exact Em.
 Qed.
